@@ -339,7 +339,7 @@ func c06Run(r *core.Run) {
 	r.Parallel(func(w, nw int, l *core.Local) {
 		p, _ := route.NewParser()
 		for i := w; i < len(full); i += nw {
-			if i%1024 == 0 && r.Expired() {
+			if (i/nw)%64 == 0 && r.Expired() {
 				return
 			}
 			c06Report(l, p, full[i], 7001, i)
